@@ -53,7 +53,7 @@ Definition g_line (s : sx) : Z * lpdesc :=
          (mk_lpbody (gI (nthx 0 b)) (gI (nthx 1 b))) (gI (nthx 4 l))).
 Definition g_opt_zz (s : sx) : option (Z * Z) := match gL s with a :: b :: _ => Some (gI a, gI b) | _ => None end.
 Definition g_shdr (s : sx) : shdr_raw * Z :=
-  let l := gL s in (mk_shdr (gI (nthx 0 l)) (gI (nthx 1 l)) (gI (nthx 2 l)) (g_pairs (nthx 3 l)), gI (nthx 4 l)).
+  let l := gL s in (mk_shdr (gI (nthx 0 l)) (gI (nthx 1 l)) (gI (nthx 2 l)) (g_pairs (nthx 3 l)) (gI (nthx 5 l)), gI (nthx 4 l)).
 Definition g_phdr (s : sx) : phdr_raw * Z :=
   let l := gL s in (mk_phdr (gI (nthx 0 l)) (g_pairs (nthx 1 l)), gI (nthx 2 l)).
 Definition g_sym (s : sx) : sym_raw * Z :=
@@ -122,6 +122,8 @@ Definition g_op (s : sx) : op :=
   else if k =? "ESymbolByName" then ESymbolByName a
   else if k =? "EString" then EString a
   else if k =? "ENumTags" then ENumTags
+  else if k =? "ESectionTyped" then ESectionTyped a b
+  else if k =? "RefetchDwarf" then RefetchDwarf
   else EGetTag a.
 
 Definition sx_answer (a : answer) : sx :=
